@@ -6,13 +6,14 @@
 package vsched
 
 import (
+	"context"
 	"fmt"
-	"sync/atomic"
 	"runtime"
 	"runtime/debug"
 	"sort"
 	"strings"
 	"sync"
+	"sync/atomic"
 	"time"
 
 	"github.com/aldas/go-modbus-client/verifshim/vtime"
@@ -94,6 +95,7 @@ type thread struct {
 	harness bool // a wait of the test harness (client-side read deadline, handler sleep): never the target of "time first"
 	quiesce bool // waiting for quiescence: enabled only when nothing else can run without time advancing
 	system  bool // executes repository code (Serve, connection goroutines, Shutdown caller) — informational
+	daemon  bool // a watcher the standard library would run in the background (context.AfterFunc): the execution does not wait for it
 }
 
 const (
@@ -171,8 +173,10 @@ func Run(cfg Config, body func()) Outcome {
 		s = nil
 		return sc.out
 	}
-	// reap: every thread that has not exited is parked; resume them one at a time, each unwinds with Goexit
-	if sc.aborted {
+	// reap: every thread that has not exited is parked; resume them one at a time, each unwinds with Goexit (after a
+	// normal end only daemon watchers can be left)
+	sc.aborted = true
+	{
 		for _, th := range sc.threads {
 			select {
 			case <-th.exited:
@@ -240,7 +244,9 @@ func (sc *sched) newThread(name string, f func(), system bool, parent *thread) *
 				sc.hb.flush(t, sc)
 			}
 			t.state = stDone
-			sc.live--
+			if !t.daemon {
+				sc.live--
+			}
 			sc.gen++ // a thread's deferred calls often cancel contexts / close channels others are waiting on
 			sc.step(t, "exit")
 			if sc.eagerFor == t { // ended before its first scheduling operation
@@ -719,6 +725,7 @@ func Send[T any](ch chan<- T, v T) {
 		select {
 		case ch <- v:
 			Signal()
+			HBChanSent(ch)
 			return
 		default:
 		}
@@ -852,4 +859,44 @@ func permute[K any](k []K, idx int) []K {
 	}
 	p := [][3]int{{0, 1, 2}, {0, 2, 1}, {1, 0, 2}, {1, 2, 0}, {2, 0, 1}, {2, 1, 0}}[idx]
 	return []K{k[p[0]], k[p[1]], k[p[2]]}
+}
+
+// ContextAfterFunc is context.AfterFunc under the scheduler (the transformer routes the call here): the standard library
+// would run f on a goroutine of its own once ctx is done - a goroutine the scheduler does not know, which must never call
+// into an installed execution. Here a watcher thread waits for ctx to be done (or for stop) and then runs f as a thread
+// like any other. While it only waits, the watcher is a daemon: the execution does not wait for it and it is not part of
+// a deadlock; from the moment ctx is done until f has returned it counts like every other thread.
+func ContextAfterFunc(ctx context.Context, f func()) (stop func() bool) {
+	sc := s
+	if sc == nil || sc.aborted {
+		return context.AfterFunc(ctx, f)
+	}
+	var stopped, started bool
+	PointObj("go", new(int))
+	t := sc.newThread(fmt.Sprintf("ctx-afterfunc%d", len(sc.threads)), func() {
+		block("ctx.afterfunc", func() bool { return stopped || ctx.Err() != nil }, 0, false)
+		if stopped {
+			return
+		}
+		started = true
+		me := sc.me()
+		me.daemon = false
+		sc.live++
+		HBAcquireAll() // whoever cancelled the context did so before f runs
+		f()
+	}, true, sc.me())
+	t.daemon = true
+	sc.live-- // (newThread counted it)
+	return func() bool {
+		if started || stopped {
+			return false
+		}
+		PointObj("ctx.afterfunc.stop", t)
+		if started || stopped {
+			return false
+		}
+		stopped = true
+		Signal()
+		return true
+	}
 }
